@@ -29,6 +29,7 @@ for l in open(sys.argv[1]):
     except Exception: continue
     if e.get('Test') and e.get('Action')=='pass': p+=1
     if e.get('Test') and e.get('Action')=='fail': f+=1; fails.append(e['Test'])
+    if not e.get('Test') and e.get('Action')=='fail': f+=1; fails.append('PACKAGE:'+e.get('Package','?').split('/')[-1])
 print('pass=%d,fail=%d%s'%(p,f,(':'+'|'.join(fails[:4])) if fails else ''))
 PY
 )
